@@ -123,6 +123,8 @@ fn class(o: &TickOutcome) -> String {
     match &o.result {
         Ok(_) => "ok".into(),
         Err(e) if e.starts_with("FootprintViolation") => "violation".into(),
+        // the guard constructor rejecting a footprint is also a flag raised by enforcement
+        Err(e) if e.starts_with("Panic:FootprintGuard") => "violation".into(),
         Err(e) if e.starts_with("Panic") => "panic".into(),
         Err(_) => "error".into(),
     }
@@ -140,6 +142,7 @@ fn main() {
         }
         install(parse_programs(m.get("r").map(String::as_str).unwrap_or("-")), m.get("omit").map(String::as_str).unwrap_or("-"));
         let enq = parse_enq(m.get("enq").map(String::as_str).unwrap_or("-"));
+        USE_DESCENT_STACK.store(m.get("descent").map(String::as_str) == Some("1"), std::sync::atomic::Ordering::Relaxed);
         let maxassign: usize = m.get("maxassign").and_then(|s| s.parse().ok()).unwrap_or(81);
         let rows = table(&g, &enq);
         // accepted candidates (reservation only, nothing executed)
